@@ -98,9 +98,15 @@ func (d *decoReg) Copy() application.AddressesManager {
 	d.h.at("AddressesRegistry.Copy")
 	return d.inner.Copy()
 }
-func (d *decoReg) Filter(a []string) []string { return d.inner.Filter(a) }
+func (d *decoReg) Filter(a []string) []string {
+	d.h.at("AddressesRegistry.Filter")
+	return d.inner.Filter(a)
+}
 func (d *decoReg) IsRegistered(a string) bool { return d.inner.IsRegistered(a) }
-func (d *decoReg) RemovedAddresses() []string { return d.inner.RemovedAddresses() }
+func (d *decoReg) RemovedAddresses() []string {
+	d.h.at("AddressesRegistry.RemovedAddresses")
+	return d.inner.RemovedAddresses()
+}
 func (d *decoReg) Update(a []string, r []string) {
 	d.h.at("AddressesRegistry.Update")
 	d.inner.Update(a, r)
@@ -121,6 +127,10 @@ func hookFor(outer, label string) (where, canonical string) {
 	case "AddressesRegistry.Copy", "AddressesRegistry.Clear", "AddressesRegistry.Update":
 		if outer == "Blockchain.Update" {
 			return "chain-registry", label
+		}
+	case "AddressesRegistry.Filter", "AddressesRegistry.RemovedAddresses":
+		if outer == "TransactionsPool.Validate" {
+			return "chain-registry", label // inside Blockchain.AddBlock, under the chain lock
 		}
 	case "Blockchain.LastBlockTimestamp", "Blockchain.LastBlockTransactions", "Blockchain.AddBlock":
 		if outer != "Blockchain.Update" {
@@ -236,8 +246,46 @@ func submit(w *World, j int) {
 	w.H.Pool.AddTransaction(r.Transaction(), r.TransactionBroadcasterTarget(), w.SM.HostTarget())
 }
 
+// competitorOf builds a chain that shares all of the host's blocks but the last and ends in ANOTHER block of the same
+// height and timestamp, produced by a real node of another validator (which has waited longer than the host's tip
+// validator, so that fork choice prefers it).  withConflict: the competing tip spends the split output that the host's
+// pooled transaction 1 spends.
+func competitorOf(w *World, withConflict bool) ([]*ledger.Block, error) {
+	hb := w.H.AllBlocks()
+	if len(hb) < 3 {
+		return nil, fmt.Errorf("host too short")
+	}
+	pc, err := adopt("pc", w.S, node.NewWallet(9).Address, hb[:len(hb)-1])
+	if err != nil {
+		return nil, err
+	}
+	if withConflict {
+		so := w.Split[1%hostSplit]
+		to := node.NewWallet(5000)
+		tx, _, e := node.MakeTx([]node.Spend{{TxId: so.txId, Index: so.index, By: so.by}},
+			[]node.RawOutput{{Address: to.Address, IsYielding: false, Value: 14_000}}, pc.Chain.LastBlockTimestamp())
+		if e != nil {
+			return nil, e
+		}
+		pc.Pool.AddTransaction(tx, "", "")
+	}
+	pc.Pool.Validate(hb[len(hb)-1].Timestamp())
+	cb := pc.AllBlocks()
+	if len(cb) != len(hb) {
+		return nil, fmt.Errorf("competitor has %d blocks, host %d: %v", len(cb), len(hb), tailStr(pc.Log.Snapshot(), 3))
+	}
+	return cb, nil
+}
+
 func runInner(w *World, rc *runCtx, inner string, txKey int) {
 	switch inner {
+	case "engine:Blockchain.Update:tipswap", "engine:Blockchain.Update:tipswap-conflict":
+		// a sync round that swaps the tip for a competitor of the same height (prepared before the outer operation
+		// started: see onePlacement)
+		if w.competitor != nil {
+			w.publish(w.competitor)
+			w.H.Chain.Update(farFuture)
+		}
 	case "engine:Blockchain.Update":
 		n := len(w.H.AllBlocks()) + 2
 		w.publish(w.N[:n]) // the other lineage: a fork for a host on M
@@ -290,6 +338,13 @@ func onePlacement(sp placementSpec) (out placementOutcome) {
 	prepare := func(w *World) {
 		submit(w, 1)
 		submit(w, 2)
+		if strings.HasPrefix(sp.Inner, "engine:Blockchain.Update:tipswap") {
+			c, err := competitorOf(w, strings.HasSuffix(sp.Inner, "-conflict"))
+			if err != nil {
+				out.Panic = "competitor: " + err.Error()
+			}
+			w.competitor = c
+		}
 	}
 	// sequential orders first
 	seqFailed := map[string]bool{}
@@ -431,6 +486,20 @@ func runPlacements(tablesPath, work string, seed int64, sel string, workers int)
 		}
 		specs = append(specs, *sp)
 	}
+	// dynamic-only placements (not table rows): a sync round that swaps the tip for a same-height competitor — without
+	// and with a transaction conflicting with the pool — inside each collaborator call of block production, the calls
+	// made by Blockchain.AddBlock on the registry included
+	for _, lab := range []string{"Blockchain.LastBlockTimestamp", "Blockchain.LastBlockTransactions", "UtxosRegistry.Copy",
+		"UtxosRegistry.CalculateFee", "Blockchain.AddBlock", "AddressesRegistry.Filter", "AddressesRegistry.RemovedAddresses"} {
+		for _, in := range []string{"engine:Blockchain.Update:tipswap", "engine:Blockchain.Update:tipswap-conflict"} {
+			if sel != "thorough" && in == "engine:Blockchain.Update:tipswap" && lab != "Blockchain.AddBlock" && lab != "AddressesRegistry.Filter" {
+				continue
+			}
+			where, canon := hookFor("TransactionsPool.Validate", lab)
+			k := "TransactionsPool.Validate@" + canon + "/" + in
+			specs = append(specs, placementSpec{"TransactionsPool.Validate", where, canon, in, "dynamic-only", "C16/placement/" + k})
+		}
+	}
 	sort.Slice(specs, func(i, j int) bool { return specs[i].Signature < specs[j].Signature })
 	// chunks
 	if workers < 1 {
@@ -497,7 +566,12 @@ func runPlacements(tablesPath, work string, seed int64, sel string, workers int)
 			if o.Panic != "" {
 				failures = append(failures, failure{"prop", o.Spec.Signature + "/panic", "panic while running " + o.Spec.Inner + " inside " + o.Spec.Outer + "@" + o.Spec.Label + ": " + o.Panic, true, replay})
 			}
-			if o.Blocked {
+			// a call made by Blockchain.AddBlock on the registry runs under the chain's write lock: the sync round's
+			// commit (and its snapshot read) cannot run there — blocking IS the expected outcome of these dynamic-only
+			// placements; they exist to catch a change that moves such a call out of the lock
+			if o.Blocked && o.Spec.Table == "dynamic-only" && strings.HasPrefix(o.Spec.Label, "AddressesRegistry.") {
+				blocked++
+			} else if o.Blocked {
 				blocked++
 				failures = append(failures, failure{"tie", o.Spec.Signature + "/blocked",
 					"the inner operation did not complete inside the call although the table does not exclude the placement (a mutex the table does not know?)", true, replay})
